@@ -28,7 +28,7 @@ TECHNIQUE = "raw IPC/HTTP requests vs a reference semver gate; invocation log as
 LEVEL_TEXT = (
     "Exploration: for services declaring each version of the grid {0,1,2,10}^3 (and none), raw requests carrying "
     "canonical versions and a templated corpus of malformed values were sent over a pipe and over HTTP, for unary, "
-    "stream init and __describe__; held means dispatch == reference gate and every refusal had the required "
+    "stream init and __describe__; requests with a refusable version AND an unconvertible parameter are included; held means dispatch == reference gate and every refusal had the required "
     "kind/status/message on all executions counted (grid exhaustive in the thorough tier)."
 )
 LEVEL_NOTE = "reference gate written from the statement; 'side to upgrade' recognised by a tolerant phrase detector"
